@@ -285,6 +285,106 @@ pub fn classify(
     }
 }
 
+/// The same for a low-level automaton type driven through the `Automaton`
+/// trait (fallible entry points only; there are no infallible ones).
+pub fn classify_low<A: aho_corasick::automaton::Automaton>(
+    a: &A,
+    api: &str,
+    hay: &[u8],
+    span: (usize, usize),
+    anchored: bool,
+    earliest: bool,
+) -> (Out, String) {
+    let npat = a.patterns_len();
+    let input = || Input::new(hay).span(span.0..span.1).anchored(anch(anchored)).earliest(earliest);
+    let hay_str = std::str::from_utf8(hay).unwrap_or("");
+    let repl_s: Vec<String> = (0..npat).map(|i| format!("<{}>", i)).collect();
+    let repl_b: Vec<Vec<u8>> = repl_s.iter().map(|s| s.as_bytes().to_vec()).collect();
+    let cap = hay.len() * (npat + 1) + 8;
+    let constructed = std::cell::Cell::new(false);
+    let r = guard(|| -> Result<(), String> {
+        match api {
+            "try_find" => a.try_find(&input()).map(|_| ()).map_err(|e| e.to_string()),
+            "try_find_overlapping" => {
+                let mut st = OverlappingState::start();
+                a.try_find_overlapping(&input(), &mut st).map_err(|e| e.to_string())
+            }
+            "try_find_overlapping@resumed" => {
+                let mut st = OverlappingState::start();
+                for warm in [false, true] {
+                    let w = Input::new(hay).span(span.0..span.1).anchored(anch(warm));
+                    let _ = a.try_find_overlapping(&w, &mut st);
+                    let _ = a.try_find_overlapping(&w, &mut st);
+                }
+                a.try_find_overlapping(&input(), &mut st).map_err(|e| e.to_string())
+            }
+            "try_find_iter" => {
+                let it = a.try_find_iter(input()).map_err(|e| e.to_string())?;
+                constructed.set(true);
+                let _ = it.take(cap).count();
+                Ok(())
+            }
+            "try_find_overlapping_iter" => {
+                let it = a.try_find_overlapping_iter(input()).map_err(|e| e.to_string())?;
+                constructed.set(true);
+                let _ = it.take(cap).count();
+                Ok(())
+            }
+            "try_replace_all" => a.try_replace_all(hay_str, &repl_s).map(|_| ()).map_err(|e| e.to_string()),
+            "try_replace_all_bytes" => a.try_replace_all_bytes(hay, &repl_b).map(|_| ()).map_err(|e| e.to_string()),
+            "try_replace_all_with" => {
+                let mut dst = String::new();
+                a.try_replace_all_with(hay_str, &mut dst, |_, _, _| true).map_err(|e| e.to_string())
+            }
+            "try_replace_all_with_bytes" => {
+                let mut dst = vec![];
+                a.try_replace_all_with_bytes(hay, &mut dst, |_, _, _| true).map_err(|e| e.to_string())
+            }
+            "try_stream_find_iter" => {
+                let it = a.try_stream_find_iter(Cursor::new(hay)).map_err(|e| e.to_string())?;
+                constructed.set(true);
+                for r in it.take(cap) {
+                    if let Err(e) = r {
+                        return Err(format!("late io error: {}", e));
+                    }
+                }
+                Ok(())
+            }
+            "try_stream_replace_all" => {
+                let mut out = vec![];
+                a.try_stream_replace_all(Cursor::new(hay), &mut out, &repl_b).map_err(|e| e.to_string())
+            }
+            "try_stream_replace_all_with" => {
+                let mut out = vec![];
+                a.try_stream_replace_all_with(Cursor::new(hay), &mut out, |_, _, _| Ok(())).map_err(|e| e.to_string())
+            }
+            _ => unreachable!("no such low-level api {}", api),
+        }
+    });
+    match r {
+        Ok(Ok(())) => (Out::Accepted, String::new()),
+        Ok(Err(e)) => {
+            if constructed.get() {
+                (Out::LateFailure, e)
+            } else {
+                (Out::Rejected, e)
+            }
+        }
+        Err(p) => {
+            if constructed.get() {
+                (Out::LateFailure, format!("panic: {}", p))
+            } else {
+                (Out::Panicked, p)
+            }
+        }
+    }
+}
+
+/// Is this entry point available on the low-level automaton types?
+fn low_api(api: &str) -> bool {
+    api.starts_with("try_")
+}
+
 fn case_json(
     pats: &[Vec<u8>],
     cfg: &Cfg,
@@ -308,14 +408,19 @@ pub fn check_cell(
     rep: &mut Report,
     pats: &[Vec<u8>],
     cfg: &Cfg,
-    ac: &AhoCorasick,
+    s: &S,
     api: &str,
     hay: &[u8],
     span: (usize, usize),
     anchored: bool,
 ) {
     let he = pats.iter().any(|p| p.is_empty());
-    let reject = should_reject(api, cfg.kind, cfg.sk, anchored, he);
+    // (the two NFA types always have both start states)
+    let sk = match s {
+        S::N(_) | S::C(_) => SK::Both,
+        _ => cfg.sk,
+    };
+    let reject = should_reject(api, cfg.kind, sk, anchored, he);
     let expected = if !reject {
         Out::Accepted
     } else if is_fallible(api) {
@@ -327,7 +432,12 @@ pub fn check_cell(
     // input-taking cell is evaluated with it off and on.
     let modes: &[bool] = if takes_input(api) { &[false, true] } else { &[false] };
     for &earliest in modes {
-    let (got, msg) = classify(ac, api, hay, span, anchored, earliest);
+    let (got, msg) = match s {
+        S::Top(ac) => classify(ac, api, hay, span, anchored, earliest),
+        S::N(a) => classify_low(a, api, hay, span, anchored, earliest),
+        S::C(a) => classify_low(a, api, hay, span, anchored, earliest),
+        S::D(a) => classify_low(a, api, hay, span, anchored, earliest),
+    };
     rep.eval();
     let mut h = Fnv::new();
     for p in pats {
@@ -403,15 +513,18 @@ fn run_matrix(
     for pats in lists {
         for &kind in &Kind::ALL {
             for &sk in &SK::ALL {
-                for &imp in &Imp::TOP {
+                for &imp in &Imp::ALL {
+                    // (the start kind means nothing to the low-level NFA types)
+                    if matches!(imp, Imp::LowNnfa | Imp::LowCnfa) && sk != SK::Both {
+                        continue;
+                    }
                     *part += 1;
                     if !ctx.mine(*part) {
                         continue;
                     }
                     let cfg = Cfg::new(imp, kind).sk(sk);
                     let s = match guard(|| cfg.build(pats)) {
-                        Ok(Ok(S::Top(ac))) => ac,
-                        Ok(Ok(_)) => unreachable!(),
+                        Ok(Ok(s)) => s,
                         Ok(Err(e)) => {
                             rep.violation(
                                 "build:error",
@@ -430,6 +543,12 @@ fn run_matrix(
                         }
                     };
                     for api in APIS.iter() {
+                        if !imp.is_top() && !low_api(api) {
+                            continue;
+                        }
+                        if !imp.is_top() {
+                            rep.tally("cells_low_level_types");
+                        }
                         for hay in hays {
                             let spans: Vec<(usize, usize)> = if takes_input(api) {
                                 let mut v = vec![(0, hay.len())];
@@ -493,11 +612,10 @@ pub fn replay(case: &J, rep: &mut Report) -> Result<(), String> {
     let sp = case.get("span").and_then(|v| v.as_arr()).ok_or("span")?;
     let span = (sp[0].as_usize().ok_or("s")?, sp[1].as_usize().ok_or("e")?);
     let anchored = case.get("anchored").and_then(|v| v.as_bool()).unwrap_or(false);
-    match cfg.build(&pats)? {
-        S::Top(ac) => {
-            check_cell(rep, &pats, &cfg, &ac, api, &hay, span, anchored);
-            Ok(())
-        }
-        _ => Err("C13 replays need a top-level configuration".to_string()),
+    let s = cfg.build(&pats)?;
+    if !cfg.imp.is_top() && !low_api(api) {
+        return Err("no such entry point on a low-level automaton".to_string());
     }
+    check_cell(rep, &pats, &cfg, &s, api, &hay, span, anchored);
+    Ok(())
 }
